@@ -71,6 +71,17 @@ func (t *c13Thread) run() {
 				wr = append(wr, r.Line+"|"+r.Path)
 			}
 			obs(fmt.Sprintf("%q %v", rows, err), fmt.Sprintf("%q <nil>", wr))
+		case "D":
+			var buf bytes.Buffer
+			// each thread prints its dry-run report into its own writer (color.Output is a process-wide variable the
+			// caller sets; the two threads use the route that takes a writer where they can)
+			err := gtree.OutputFromRoot(&buf, real[0], gtree.WithDryRun(), gtree.WithEncodeJSON())
+			_ = err
+			var buf2 bytes.Buffer
+			err2 := gtree.OutputFromMarkdown(&buf2, strings.NewReader(enumSpell(mnodes[0])), gtree.WithDryRun(), gtree.WithFileExtensions([]string{"b"}), gtree.WithNoUseIterOfSimpleOutput())
+			m := model.MergeNode(mnodes[0])
+			dn, fn := model.Counts(m, []string{"b"})
+			obs(fmt.Sprintf("%q %v", model.NormSummary(buf2.String()), err2), fmt.Sprintf("%q <nil>", model.NormSummary(model.RenderRoot(m, model.DefaultFmt)+fmt.Sprintf("\n%d directories, %d files\n", dn, fn))))
 		case "J":
 			var buf bytes.Buffer
 			err := gtree.OutputFromRoot(&buf, real[0], gtree.WithEncodeJSON())
@@ -103,6 +114,19 @@ func (t *c13Thread) run() {
 			obs(fmt.Sprintf("%q %v", rows, err), fmt.Sprintf("%q <nil>", wr))
 		}
 	}
+}
+
+func enumSpell(n *model.Node) string {
+	var sb strings.Builder
+	var rec func(x *model.Node, lv int)
+	rec = func(x *model.Node, lv int) {
+		sb.WriteString(strings.Repeat("  ", lv) + "- " + x.Name + "\n")
+		for _, k := range x.Kids {
+			rec(k, lv+1)
+		}
+	}
+	rec(n, 0)
+	return sb.String()
 }
 
 func jsonOf(n *model.Node) string {
@@ -177,11 +201,13 @@ func init() {
 			"md-heading":        {M("M", "# h\n- a\n  - b\n# i\n- c\n")},
 			"md-twice":          {M("M", "- x\n  - y\n"), M("M", "- x\n    - y\n    - z\n")},
 			"root-then-md":      {N("r"), A(0, "a"), O("T"), M("M", "- x\n  - y\n")},
+			"dry-spread":        {N("r"), A(0, "b"), A(0, "a"), A(2, "b"), O("D")},
 		}
 		pairs := [][2]string{
 			{"build-out", "build-out"}, {"out-add-out", "out-add-out"}, {"out-add-out", "deep-walk"}, {"deep-walk", "json-out"},
 			{"build-out", "md-text"}, {"md-text", "md-text-2"}, {"md-text", "md-walk"}, {"md-dry", "md-text-2"}, {"md-heading", "md-text"},
 			{"md-twice", "md-twice"}, {"root-then-md", "out-add-out"}, {"md-dry", "md-dry"}, {"md-heading", "md-heading"}, {"md-walk", "root-then-md"},
+			{"dry-spread", "md-dry"}, {"dry-spread", "dry-spread"}, {"dry-spread", "build-out"},
 		}
 		var out []*Scenario
 		for _, p := range pairs {
